@@ -112,7 +112,7 @@ var (
 // IsFrameRange returns true if the given string is a valid frame
 // range format.  Any padding characters, such as '#' and '@' are ignored.
 func IsFrameRange(frange string) bool {
-	_, err := frameRangeMatches(frange)
+	_, err := NewFrameSet(frange)
 	if err == nil {
 		return true
 	}
